@@ -95,7 +95,8 @@ def one_run(seed, n_queue, n_direct_seqs):
 
 
 def serial(msg):
-    return [p if isinstance(p, bytes) else json.dumps(p).encode("utf_8") for p in msg]
+    """the fixed rule: bytes as they are, strings and mappings as JSON, models as the JSON of their dict"""
+    return [p if isinstance(p, bytes) else json.dumps(p.dict() if hasattr(p, "dict") and not isinstance(p, dict) else p).encode("utf_8") for p in msg]
 
 
 def run(tier, seed, drv):
@@ -149,7 +150,17 @@ def run(tier, seed, drv):
     # serialisation of parts vs the rule
     from tickit.adapters.io.zeromq_push_io import ZeroMqPushIo
     io = ZeroMqPushIo(socket_factory=None)
-    vals = [b"", b"\x00\xff", "", "é\n\"", {"a": 1, "b": [True, None, "x"]}, {"é": {"n": -3}}, " "]
+    from pydantic.v1 import BaseModel
+
+    class Status(BaseModel):
+        enabled: object
+        gain: object
+
+    # values that compare (and hash) equal but serialise differently - 1 / True / 1.0, 0 / False / 0.0 - in equal-shaped
+    # mappings and models, mappings that differ only in key order, a string that looks like a mapping's JSON
+    vals = [b"", b"\x00\xff", "", "é\n\"", {"a": 1, "b": [True, None, "x"]}, {"é": {"n": -3}}, " ",
+            {"s": 1}, {"s": True}, {"s": 1.0}, {"s": 0}, {"s": False}, {"s": 0.0}, {"s": None}, {"s": "1"}, {"a": 1, "b": 2}, {"b": 2, "a": 1},
+            '{"s": 1}', b'{"s": 1}', Status(enabled=True, gain=2.0), Status(enabled=1, gain=2), Status(enabled=1.0, gain=2.0), {}, {"": ""}]
     for _ in range(200 if tier == "quick" else 3000):
         msg = [rng.choice(vals) for _ in range(rng.randrange(1, 5))]
         out = io._serialize(msg)
